@@ -983,6 +983,14 @@ pub fn mutate(base: &Program, rule: Rule, k: usize) -> Option<(Program, String)>
                 ("(m, Mq::A)", Pat::Tup(vec![pvar("m_q"), Pat::EnumUnit("Mq".into(), "A".into())]), tup(vec![lit_u8(2), eq_val()])),
                 ("(m, (true, k))", Pat::Tup(vec![pvar("m_q"), Pat::Tup(vec![Pat::Bool(true), pvar("k_q")])]), tup(vec![lit_u8(2), tup(vec![lit_bool(true), lit_u8(3)])])),
                 ("(Wq::W(n, f), 0u8)", Pat::Tup(vec![wq(pvar("n_q"), pvar("f_q")), lit0()]), tup(vec![wq_val(), lit_u8(2)])),
+                // ranges that miss exactly one value at an end of the type
+                ("-128i8..=126i8", Pat::Range(-128, 126, true, Some(IntTy::I8)), lit(1, IntTy::I8)),
+                ("-127i8..=127i8", Pat::Range(-127, 127, true, Some(IntTy::I8)), lit(1, IntTy::I8)),
+                ("0u8..=254u8", Pat::Range(0, 254, true, Some(IntTy::U8)), lit_u8(1)),
+                ("1u8..=255u8", Pat::Range(1, 255, true, Some(IntTy::U8)), lit_u8(1)),
+                ("-32768i16..32767i16", Pat::Range(-32768, 32767, false, Some(IntTy::I16)), lit(1, IntTy::I16)),
+                ("(m, -2147483648i32..=2147483646i32)", Pat::Tup(vec![pvar("m_q"), Pat::Range(-2147483648, 2147483646, true, Some(IntTy::I32))]), tup(vec![lit_u8(2), lit(1, IntTy::I32)])),
+                ("(0u64..=18446744073709551614u64, m)", Pat::Tup(vec![Pat::Range(0, 18446744073709551614, true, Some(IntTy::U64)), pvar("m_q")]), tup(vec![lit(1, IntTy::U64), lit_u8(2)])),
             ];
             for (name, pat, val) in menu {
                 if m.hit() {
